@@ -295,6 +295,12 @@ def s5(prog: Program, chk: Check) -> None:
     backend_scatters(prog, chk, "S5")
 
 
+def s6(prog: Program, chk: Check) -> None:
+    """Both methods rotate into the coupling eigenbasis with the same adjoint pairs."""
+    from rules.c05 import e2
+    e2(prog, chk, rule="S6")
+
+
 def run(prog: Program, chk: Check) -> None:
     chk.explanation = (
         "Decides that TEMPO and PT-TEMPO + compute_dynamics are wired to the same inputs at the "
@@ -310,3 +316,4 @@ def run(prog: Program, chk: Check) -> None:
     chk.call(s3, prog, chk)
     chk.call(s4, prog, chk)
     chk.call(s5, prog, chk)
+    chk.call(s6, prog, chk)
